@@ -13,8 +13,8 @@ import (
 )
 
 func init() {
-	register("C08", "other", LoadOpts{TC: true, SSA: true}, checkC08)
-	register("C10", "other", LoadOpts{TC: true, SSA: true}, checkC10)
+	register("C08", "other", LoadOpts{TC: true, SSA: true, Controls: []string{"sr"}}, checkC08)
+	register("C10", "other", LoadOpts{TC: true, SSA: true, Controls: []string{"ep"}}, checkC10)
 	register("C11", "other", LoadOpts{TC: true, SSA: true}, checkC11)
 }
 
@@ -148,8 +148,11 @@ func isReadSig(sig *types.Signature) bool {
 	return types.Identical(sig.Results().At(0).Type(), types.Typ[types.Int]) && isErr(sig.Results().At(1).Type())
 }
 
-func runSR(u *Universe, r *Report, t *Taint) {
+func runSR(u *Universe, r *Report, t *Taint, only func(*ssa.Function) bool) {
 	for _, f := range u.Funcs {
+		if only != nil && !only(f) {
+			continue
+		}
 		ord := map[string]int{}
 		for _, b := range f.Blocks {
 			for _, ins := range b.Instrs {
@@ -290,7 +293,8 @@ func checkC08(c *Ctx) {
 	r := c.R
 	r.Explanation = "Decides C08 through a sufficient structural condition: every consumption of the source io.ReadSeeker (identified by wrapper-alias analysis from the reader/introspection entry points, runtime + instantiated templates) goes through a fill-or-fail primitive (io.ReadFull, io.CopyN, binary.Read, thrift over StreamTransport, …) or a count-preserving forwarding wrapper; a raw Read whose count is not honoured is reported at its call site. Then the bytes and errors every call site sees are identical for every fragmentation the io.Reader contract allows, including data returned with io.EOF, and the consumed-byte accounting (readCounter) is fragmentation independent."
 	_, t, _ := srcAnalysis(c)
-	runSR(c.U, r, t)
+	runSR(c.U, r, t, func(f *ssa.Function) bool { return !c.U.isCtl(f) })
+	c.controlsSR()
 	r.floor("SR/direct-read", 1, "readCounter.Read is the forwarding wrapper")
 	r.floor("SR/fill-or-fail", 6, "binary.Read in getMetaDataSize, thrift Read in ReadMetaData and PageHeader, io.CopyN (+ page body reads) in pageData")
 	r.floor("SR/seek", 3+len(c.U.TC), "getMetaDataSize, ReadMetaData, PageHeadersAtOffset x2, NewParquetReader per package")
@@ -308,6 +312,7 @@ func checkC10(c *Ctx) {
 	roots, _, ops := srcAnalysis(c)
 	reach := c.U.reach(roots.reader)
 	runEP(c.U, r, "EP/source", ops, fnSet(reach))
+	c.controlsEP()
 	n := len(c.U.TC)
 	r.Analysed["functions_reachable_from_reader_roots"] = len(reach)
 	r.floor("EP/source/primitive", 8+n, "getMetaDataSize x2, ReadMetaData x2, PageHeader, pageData x3 (+readCounter.Read) + NewParquetReader Seek per package")
